@@ -17,7 +17,9 @@ SPEC = {
             "are compared with the single-iovec rendering; every print_data/format_data entry point (pointer/size, string, "
             "vector<iovec>, iovec*/count; string-returning and FILE*) x {no prev, prev in the same partition, prev cut into a "
             "different number of pieces 1..4 vs 1..4} x colour {none, USE_COLOR, DISABLE_COLOR} is compared with the core "
-            "rendering of the contiguous buffers; % / %% literals include the exact midpoint of adjacent floats/doubles and "
+            "rendering of the contiguous buffers; in six forked children (one per order of first use of {pty, tmpfile, pipe}) "
+            "print_data with default colour flags must print format_data-without-colour to a non-tty and "
+            "format_data-with-USE_COLOR to the pty whatever was printed to before; % / %% literals include the exact midpoint of adjacent floats/doubles and "
             "17-30-digit literals within 1e-17..1e-29 of it, judged by exact rational rounding. distinct_nontrivial = distinct (operation, generator/address "
             "kind, form/colour mode, mask/flag) classes observed, e.g. rt:meta-heavy:quoted:runs, dump:2^64-len:color+prev, "
             "grammar:int64-neg:be:off.",
@@ -50,6 +52,8 @@ SPEC = {
         "overload:format_data(ptr,size):prev-contiguous", "overload:format_data(string):prev-none",
         "overload:color-USE_COLOR:prev-more-pieces", "overload:color-none:prev-fewer-pieces",
         "overload:color-DISABLE_COLOR:prev-same-partition", "overload:pieces:1v4", "overload:pieces:3v1", "overload:pieces:4vsame",
+        "streams:order:*", "streams:tmpfile:auto-colour:tmpfile-first", "streams:pipe:auto-colour:pipe-first",
+        "streams:tmpfile:explicit-USE_COLOR:*", "streams:pipe:explicit-DISABLE_COLOR:*",
         "grammar:float-midpoint:le:*", "grammar:float-midpoint:be:*", "grammar:double-midpoint:le:*", "grammar:double-midpoint:be:*",
         "grammar:midpoint:float:exact", "grammar:midpoint:float:nearest-D", "grammar:midpoint:float:above-D",
         "grammar:midpoint:float:below-D", "grammar:midpoint:float:plus-eps", "grammar:midpoint:float:minus-eps",
@@ -81,6 +85,8 @@ SPEC = {
         "ALLOW_FILES is never set",
         "grammar-generated texts are well-formed (numbers followed by white space, no '/*/' corner, ASCII-only '..' strings); "
         "ill-formed texts are judged for totality only",
+        "the stream-history part needs a pty (posix_openpt); if none can be opened the counter streams_no_pty is set and only "
+        "tmpfile/pipe orders are exercised",
         "libc strtof/strtod/printf are trusted to be correctly rounded (the Python reference computes exact roundings)",
     ],
 }
